@@ -1240,6 +1240,22 @@ def jobs_C16(rng, tier):
             if sk in ("cog", "roc"):
                 sk = dict(cog=float(n), roc=1e5)[sk]
             js.append(FpTrack(e, xs, 1e-6, sk, fam="level"))
+    # ordinary shapes in units of 2^-40 / 2^-70 (a bounded dynamic range, only a small unit): every view here is homogeneous or
+    # scale-free, so its f64 output must track the exact one as it does at unit scale — unless an ABSOLUTE threshold sits in the
+    # code (wave-6 seed C16f: Roc treated |base| < epsilon as a zero base).  Views with known residue problems on flat windows
+    # (K3) are left out.
+    for nm in ("sma", "cum", "min", "max", "hln", "bent", "cog", "net", "alma", "roc", "ema", "lagf", "ss", "cc", "wroll", "lagrsi", "tflex",
+               "rflex", "drawdown", "lnret"):
+        for _ in range(scale_n(tier, 2, 12)):
+            n = rng.randint(2, 12)
+            e = rec_expr(rng, nm, max(n, 6)) if nm in ("lagf", "cc", "tflex", "rflex") else mk(nm, ECHO, gen.gen_params(rng, nm, 12, n=n))
+            xs = gen.stream(rng, "tiny", 40 if nm in ("ema", "lagf", "ss", "cc", "tflex", "rflex", "lagrsi") else rng.choice([60, 300]), n)
+            if nm in ("roc", "cog", "drawdown", "lnret"):
+                xs = [abs(x) + F(1, 2 ** 45) for x in xs]
+            sk = C16_SCALE[nm]
+            if sk in ("cog", "roc"):
+                sk = dict(cog=float(n), roc=1e5)[sk]
+            js.append(FpTrack(e, xs, 1e-6, sk, fam="tiny"))
     # long CONSTANT streams: the exact answer is known in closed form, so only the f64 run is needed (10^6 values)
     for nm in ("wroll", "drawdown", "lnret"):
         for it in range(scale_n(tier, 2, 6)):
